@@ -557,8 +557,8 @@ VARIANTS = [
      "        if self.permissions & self.READ_REQUIRES_AUTHORIZATION:\n            # TODO: handle authorization better\n            raise ATT_Error(\n                error_code=ATT_INSUFFICIENT_AUTHORIZATION_ERROR, att_handle=self.handle\n            )\n\n        value: _T | None\n",
      "        value: _T | None\n", 'fire', 'C11.gate'),
     ('read auth check moved after the value access', 'bumble/att.py',
-     "        self.emit(self.EVENT_READ, connection, b'' if value is None else value)\n\n        return b'' if value is None else self.encode_value(value)\n",
-     "        self.emit(self.EVENT_READ, connection, b'' if value is None else value)\n        if self.permissions & self.READ_REQUIRES_AUTHORIZATION:\n            raise ATT_Error(error_code=ATT_INSUFFICIENT_AUTHORIZATION_ERROR, att_handle=self.handle)\n\n        return b'' if value is None else self.encode_value(value)\n", 'silent', ''),
+     "        if value is None:\n            return b''\n        try:\n            return self.encode_value(value)\n",
+     "        if self.permissions & self.READ_REQUIRES_AUTHORIZATION:\n            raise ATT_Error(error_code=ATT_INSUFFICIENT_AUTHORIZATION_ERROR, att_handle=self.handle)\n        if value is None:\n            return b''\n        try:\n            return self.encode_value(value)\n", 'silent', ''),
     ('handler compares attribute.value directly', 'bumble/gatt_server.py',
      "                if (await attribute.read_value(bearer)) != request.attribute_value:\n", "                if attribute.value != request.attribute_value:\n", 'fire', 'C11.access'),
     ('write command writes the value itself', 'bumble/gatt_server.py',
